@@ -933,16 +933,23 @@ class Constraints:
         if digits <= max_digits:
             return value
 
-        delta = digits - max_digits
-
         # 123.456
         # decimals: 3
         # max_digits: 4
         # delta: 3
 
-        if decimals >= delta:
-            return round(value, decimals - delta)
-        raise ValueError
+        while digits > max_digits:
+            delta = digits - max_digits
+            if decimals < delta:
+                raise ValueError
+            value = round(value, decimals - delta)
+            # rounding can carry into a new leading digit (99.99 -> 100.0): check again
+            digits, new_decimals = cls._parse_decimal(value)
+            if new_decimals >= decimals:
+                # no decimal place left to drop (a float keeps its trailing '.0')
+                break
+            decimals = new_decimals
+        return value
 
     @classmethod
     def const(cls, value, v):
